@@ -214,6 +214,12 @@ func hasInteresting(v interface{}) bool {
 
 // one body case: configuration g, backend body in, wire variations
 func bodyCase(stream string, g gwcfg, in bodyIn, r *rng.R, gzipped bool, status int, chunkMode int) {
+	s := bodyScript(g, in, r, gzipped, status, chunkMode)
+	emitBody(stream, g, in, s, wd.call(g, s), gzipped, status)
+}
+
+// the backend reply for a body case
+func bodyScript(g gwcfg, in bodyIn, r *rng.R, gzipped bool, status int, chunkMode int) *script {
 	payload := in.text
 	hdrs := [][2]string{{"Content-Type", "application/json"}}
 	if g.be == "string" {
@@ -223,8 +229,10 @@ func bodyCase(stream string, g gwcfg, in bodyIn, r *rng.R, gzipped bool, status 
 		payload = gz(payload)
 		hdrs = append(hdrs, [2]string{"Content-Encoding", "gzip"})
 	}
-	s := &script{status: status, headers: hdrs, chunks: split(payload, r, chunkMode), fixedLen: chunkMode == 0 && r.Bool()}
-	rep := wd.call(g, s)
+	return &script{status: status, headers: hdrs, chunks: split(payload, r, chunkMode), fixedLen: chunkMode == 0 && r.Bool()}
+}
+
+func emitBody(stream string, g gwcfg, in bodyIn, s *script, rep reply, gzipped bool, status int) {
 	var body string
 	parsed := false
 	if g.oe != "string" && rep.err == "" {
@@ -308,10 +316,17 @@ func chunksCoq(cs [][]byte) string {
 func noopCase(stream string, router string, cc int, raw bool, s *script) {
 	g := gwcfg{router: router, be: "no-op", oe: "no-op", cc: cc, raw: raw}
 	ref := wd.direct(s)
+	checkRef(ref, s)
+	emitNoop(stream, router, cc, raw, s, ref, wd.call(g, s))
+}
+
+func checkRef(ref reply, s *script) {
 	if ref.err != "" || ref.status != s.status || !bytes.Equal(ref.body, s.body()) {
 		panic(fmt.Sprintf("harness self-check: the stub backend did not emit its script: %v status %d/%d body %d/%d", ref.err, ref.status, s.status, len(ref.body), s.total()))
 	}
-	rep := wd.call(g, s)
+}
+
+func emitNoop(stream string, router string, cc int, raw bool, s *script, ref, rep reply) {
 	sent := flatten(ref.header)
 	got := flatten(rep.header)
 	obs := fmt.Sprintf("{| n_status := %s; n_headers := %s; n_body := %s; n_err := %s |}",
@@ -498,7 +513,7 @@ func main() {
 						continue
 					}
 					raw := r.Bool()
-					bodyCase("corpus", gwcfg{rt, c.be, c.coll, c.oe, cc, raw}, docIn(d, r, style{ws: r.Bool(), escapes: r.Intn(3)}), r, r.Chance(1, 4), 200+r.Intn(2), r.Intn(3))
+					bodyCase("corpus", gwcfg{rt, c.be, c.coll, c.oe, cc, raw, false}, docIn(d, r, style{ws: r.Bool(), escapes: r.Intn(3)}), r, r.Chance(1, 4), 200+r.Intn(2), r.Intn(3))
 				}
 			}
 		}
@@ -507,7 +522,7 @@ func main() {
 		for j, rt := range routers {
 			cs := forKind(kindOf(d))
 			c := cs[(i+j)%len(cs)]
-			bodyCase("corpus", gwcfg{rt, c.be, c.coll, c.oe, 1, j == 0}, docIn(d, r, style{}), r, true, 200, 2*j)
+			bodyCase("corpus", gwcfg{rt, c.be, c.coll, c.oe, 1, j == 0, false}, docIn(d, r, style{}), r, true, 200, 2*j)
 		}
 	}
 	// F-C13 (recorded finding): no-op endpoint with concurrent calls, large chunked body
@@ -532,7 +547,7 @@ func main() {
 							if be == "string" {
 								in.isDoc = false
 							}
-							bodyCase("scope", gwcfg{rt, be, coll, oe, cc, false}, in, r, false, 200, 0)
+							bodyCase("scope", gwcfg{rt, be, coll, oe, cc, false, false}, in, r, false, 200, 0)
 						}
 					}
 				}
@@ -565,7 +580,7 @@ func main() {
 		}
 		cs := forKind(kindOf(d))
 		c := cs[rr.Intn(len(cs))]
-		g := gwcfg{routers[rr.Intn(2)], c.be, c.coll, c.oe, 1 + rr.Intn(3), rr.Bool()}
+		g := gwcfg{routers[rr.Intn(2)], c.be, c.coll, c.oe, 1 + rr.Intn(3), rr.Bool(), false}
 		bodyCase("random", g, docIn(d, rr, style{ws: rr.Bool(), escapes: rr.Intn(3)}), rr, rr.Chance(1, 5), 200+rr.Intn(2), rr.Intn(3))
 	}
 	// deep nesting 1..64
@@ -580,7 +595,7 @@ func main() {
 			d := deepDoc(rr, depth, top)
 			cs := forKind(kindOf(d))
 			c := cs[rr.Intn(len(cs))]
-			bodyCase("deep", gwcfg{routers[(depth+k)%2], c.be, c.coll, c.oe, 1 + rr.Intn(3), rr.Bool()}, docIn(d, rr, style{ws: rr.Bool(), escapes: rr.Intn(3)}), rr, rr.Chance(1, 5), 200, rr.Intn(3))
+			bodyCase("deep", gwcfg{routers[(depth+k)%2], c.be, c.coll, c.oe, 1 + rr.Intn(3), rr.Bool(), false}, docIn(d, rr, style{ws: rr.Bool(), escapes: rr.Intn(3)}), rr, rr.Chance(1, 5), 200, rr.Intn(3))
 		}
 	}
 	// string encoding: arbitrary bytes to the string render, valid UTF-8 to the json render
@@ -610,7 +625,7 @@ func main() {
 				oe = "json"
 			}
 		}
-		g := gwcfg{routers[rr.Intn(2)], "string", rr.Bool(), oe, 1 + rr.Intn(3), rr.Bool()}
+		g := gwcfg{routers[rr.Intn(2)], "string", rr.Bool(), oe, 1 + rr.Intn(3), rr.Bool(), false}
 		bodyCase("string", g, bodyIn{text: text, big: big}, rr, rr.Chance(1, 6), 200+rr.Intn(2), rr.Intn(3))
 	}
 	// no-op: body sizes 0 B .. 512 KiB in flushed chunks, statuses, header sets
@@ -660,7 +675,7 @@ func main() {
 	bads := [][]byte{[]byte(""), []byte("{"), []byte(`{"a":1`), []byte(`{"a":}`), []byte(`[1,2`), []byte("nul"), []byte(`{"a":01}`), []byte(`{'a':1}`), []byte("\xff\xfe"), []byte(`{"a":1e}`), []byte(`"unterminated`), []byte(`{"a":"\ud800"`)}
 	for i, b := range bads {
 		for _, c := range []conf{{"json", false, "json"}, {"json", true, "json"}, {"safejson", false, "json"}} {
-			bodyCase("malformed", gwcfg{routers[i%2], c.be, c.coll, c.oe, 1 + i%3, i%2 == 0}, bodyIn{text: b, bad: true}, r, false, 200, i%3)
+			bodyCase("malformed", gwcfg{routers[i%2], c.be, c.coll, c.oe, 1 + i%3, i%2 == 0, false}, bodyIn{text: b, bad: true}, r, false, 200, i%3)
 		}
 	}
 
